@@ -64,7 +64,12 @@ static void s_process_queues(
 
 static void s_destroy_callback(void *arg) {
     struct aws_thread_scheduler *scheduler = arg;
+    /* Set the flag under the lock: the thread evaluates its wake-up predicate with the lock held, so the store cannot
+     * fall between that evaluation and the start of its wait, where the notification below would be lost and the join
+     * would have to sit out the thread's whole timeout (which is the time of the next task, however far away). */
+    AWS_FATAL_ASSERT(!aws_mutex_lock(&scheduler->thread_data.mutex) && "mutex lock failed!");
     aws_atomic_store_int(&scheduler->should_exit, 1U);
+    AWS_FATAL_ASSERT(!aws_mutex_unlock(&scheduler->thread_data.mutex) && "mutex unlock failed!");
     aws_condition_variable_notify_all(&scheduler->thread_data.c_var);
     aws_thread_join(&scheduler->thread);
     /* The thread may have exited without picking up what was queued last, and nobody else can touch the queues any
